@@ -39,66 +39,66 @@ type provider struct {
 }
 
 type tenure struct {
-	task     string
-	version  string
-	expires  time.Time
-	active   bool // task is inside the critical section
-	hung     bool // a renewal call of this tenure is hanging in the storage (fault) for >= lease/4
-	unlocked bool // Unlock has returned
-	unlockAt time.Time
-	afterUnlockCalls int
+	task                 string
+	version              string
+	expires              time.Time
+	active               bool // task is inside the critical section
+	hung                 bool // a renewal call of this tenure is hanging in the storage (fault) for >= lease/4
+	unlocked             bool // Unlock has returned
+	unlockAt             time.Time
+	afterUnlockCalls     int
 	lastRenewAfterUnlock time.Time
-	id       int
+	id                   int
 }
 
 type taskState struct {
-	name      string
-	locker    int
-	prov      *provider
-	acquiring bool
-	ctxLive   func() bool
-	inside    bool
-	unlocking bool
-	done      bool
-	dead      bool
-	blockedSince time.Time
+	name          string
+	locker        int
+	prov          *provider
+	acquiring     bool
+	ctxLive       func() bool
+	inside        bool
+	unlocking     bool
+	done          bool
+	dead          bool
+	blockedSince  time.Time
 	afterShutdown bool // the current attempt was invoked after Shutdown of its provider had returned
 }
 
 type world struct {
-	c       *sim.Case
-	e       *sim.Env
-	mode    string
-	lease   time.Duration
-	be      *backend.Backend
-	provs   []*provider
-	lockers []gsync.Locker
-	lockerProv []int
-	tasks   []*taskState
-	byName  map[string]*taskState
-	nDone   int
-	inside  map[string]bool
-	voided  bool
-	gateTen *tenure
+	c                                  *sim.Case
+	e                                  *sim.Env
+	mode                               string
+	lease                              time.Duration
+	be                                 *backend.Backend
+	provs                              []*provider
+	lockers                            []gsync.Locker
+	lockerProv                         []int
+	tasks                              []*taskState
+	byName                             map[string]*taskState
+	nDone                              int
+	inside                             map[string]bool
+	voided                             bool
+	gateTen                            *tenure
 	noiseTasks, noiseDone, noiseInside int
-	outageNodes map[int]bool // nodes that lose the storage for a while (op "outage")
-	deadNode    map[int]bool
-	hangFaults bool // a storage call may hang on a timer worker: leases of other locks are not judged
-	ordAcq  int64
-	ordRenew int64
-	faults  map[string]sim.Fault // key seam:ord
-	tenures []*tenure
-	byVer   map[string]*tenure
-	curTen  map[string]*tenure // by task
-	phase   int
-	sumSleep time.Duration
+	outageNodes                        map[int]bool // nodes that lose the storage for a while (op "outage")
+	deadNode                           map[int]bool
+	hangFaults                         bool // a storage call may hang on a timer worker: leases of other locks are not judged
+	ordAcq                             int64
+	ordRenew                           int64
+	faults                             map[string]sim.Fault // key seam:ord
+	tenures                            []*tenure
+	byVer                              map[string]*tenure
+	curTen                             map[string]*tenure // by task
+	phase                              int
+	sumSleep                           time.Duration
 	// C05
-	holderDeadAt time.Time
-	deadTask string
-	deadLastExpiry time.Time
+	holderDeadAt     time.Time
+	deadTask         string
+	deadLastExpiry   time.Time
 	contenderEntered bool
-	partitioned map[int]bool
-	entries int
+	partitioned      map[int]bool
+	entries          int
 	// cancellations that are tied to the next Unlock of anybody (faults placed
 	// right at the hand-off)
 	beforeUnlock []func()
@@ -202,7 +202,7 @@ func (s *simStore) gate(ctx context.Context, kind string, renew bool) (execute b
 func (s *simStore) Create(ctx context.Context, r kvs.Record) (string, error) {
 	exec, lost, ferr := s.gate(ctx, "create", false)
 	if !exec {
-		return "", ferr
+		return "", s.wrapErr(ferr)
 	}
 	who := zsimrt.CurrentName()
 	ver, err := s.base.Create(ctx, r)
@@ -213,9 +213,19 @@ func (s *simStore) Create(ctx context.Context, r kvs.Record) (string, error) {
 	zsimrt.Yield("st:resp:create")
 	s.replyLatency()
 	if lost {
-		return "", errInjected
+		return "", s.wrapErr(errInjected)
 	}
-	return ver, err
+	return ver, s.wrapErr(err)
+}
+
+// wrapErr: a Storage is free to annotate its errors (the errors package asks
+// callers to compare with errors.Is); with knob wrap_errors every error that
+// leaves the seam is wrapped once.
+func (s *simStore) wrapErr(err error) error {
+	if err == nil || s.w.c.Knob("wrap_errors", 0) == 0 {
+		return err
+	}
+	return fmt.Errorf("remote storage (node %d): %w", s.node, err)
 }
 
 // replyLatency: a storage whose answers to acquisition-path calls take a while
@@ -231,14 +241,14 @@ func (s *simStore) replyLatency() {
 func (s *simStore) Get(ctx context.Context, key string) (kvs.Record, error) {
 	exec, lost, ferr := s.gate(ctx, "get", false)
 	if !exec {
-		return kvs.Record{}, ferr
+		return kvs.Record{}, s.wrapErr(ferr)
 	}
 	r, err := s.base.Get(ctx, key)
 	zsimrt.Yield("st:resp:get")
 	if lost {
-		return kvs.Record{}, errInjected
+		return kvs.Record{}, s.wrapErr(errInjected)
 	}
-	return r, err
+	return r, s.wrapErr(err)
 }
 
 func (s *simStore) GetMany(ctx context.Context, keys ...string) ([]*kvs.Record, error) {
@@ -249,7 +259,7 @@ func (s *simStore) Put(ctx context.Context, r kvs.Record) (kvs.Record, error) {
 	openAtInvoke := s.w.openTenures()
 	exec, lost, ferr := s.gate(ctx, "put", false)
 	if !exec {
-		return kvs.Record{}, ferr
+		return kvs.Record{}, s.wrapErr(ferr)
 	}
 	rr, err := s.base.Put(ctx, r)
 	if err == nil && r.Key == lockKey {
@@ -257,9 +267,9 @@ func (s *simStore) Put(ctx context.Context, r kvs.Record) (kvs.Record, error) {
 	}
 	zsimrt.Yield("st:resp:put")
 	if lost {
-		return kvs.Record{}, errInjected
+		return kvs.Record{}, s.wrapErr(errInjected)
 	}
-	return rr, err
+	return rr, s.wrapErr(err)
 }
 
 func (s *simStore) PutMany(ctx context.Context, rs []kvs.Record) error {
@@ -272,7 +282,7 @@ func (s *simStore) CasByVersion(ctx context.Context, r kvs.Record) (kvs.Record, 
 	s.w.gateTen = s.w.byVer[r.Version]
 	exec, lost, ferr := s.gate(ctx, "cas", true)
 	if !exec {
-		return kvs.Record{}, ferr
+		return kvs.Record{}, s.wrapErr(ferr)
 	}
 	rr, err := s.base.CasByVersion(ctx, r)
 	s.w.e.Logf("st n%d cas -> %s", s.node, errStr(err))
@@ -284,15 +294,15 @@ func (s *simStore) CasByVersion(ctx context.Context, r kvs.Record) (kvs.Record, 
 	}
 	zsimrt.Yield("st:resp:cas")
 	if lost {
-		return kvs.Record{}, errInjected
+		return kvs.Record{}, s.wrapErr(errInjected)
 	}
-	return rr, err
+	return rr, s.wrapErr(err)
 }
 
 func (s *simStore) Delete(ctx context.Context, key string) error {
 	exec, lost, ferr := s.gate(ctx, "delete", false)
 	if !exec {
-		return ferr
+		return s.wrapErr(ferr)
 	}
 	who := zsimrt.CurrentName()
 	err := s.base.Delete(ctx, key)
@@ -300,23 +310,23 @@ func (s *simStore) Delete(ctx context.Context, key string) error {
 	zsimrt.Yield("st:resp:delete")
 	s.replyLatency()
 	if lost {
-		return errInjected
+		return s.wrapErr(errInjected)
 	}
-	return err
+	return s.wrapErr(err)
 }
 
 func (s *simStore) WaitForVersionChange(ctx context.Context, key, ver string) error {
 	exec, lost, ferr := s.gate(ctx, "wait", false)
 	if !exec {
-		return ferr
+		return s.wrapErr(ferr)
 	}
 	s.w.e.Probe("storage_wait")
 	err := s.base.WaitForVersionChange(ctx, key, ver)
 	zsimrt.Yield("st:resp:wait")
 	if lost {
-		return errInjected
+		return s.wrapErr(errInjected)
 	}
-	return err
+	return s.wrapErr(err)
 }
 
 func (s *simStore) ListKeys(ctx context.Context, pattern string) (iterable.Iterator[string], error) {
@@ -339,7 +349,7 @@ func errStr(err error) string {
 		return "Canceled"
 	case stderrors.Is(err, context.DeadlineExceeded):
 		return "DeadlineExceeded"
-	case err == errInjected:
+	case stderrors.Is(err, errInjected):
 		return "injected"
 	}
 	return "error(" + err.Error() + ")"
